@@ -67,7 +67,12 @@ func c05Registry(c *Ctx) {
 		return
 	}
 	made := map[string]bool{}
-	for _, fn := range append([]*ssa.Function{un}, un.AnonFuncs...) {
+	var unFns []*ssa.Function
+	for _, fn := range withHelpers(un, 2) { // the selection may be split into helpers of the package
+		unFns = append(unFns, fn)
+		unFns = append(unFns, fn.AnonFuncs...)
+	}
+	for _, fn := range unFns {
 		for _, b := range fn.Blocks {
 			for _, in := range b.Instrs {
 				if al, ok := in.(*ssa.Alloc); ok && al.Heap {
